@@ -15,8 +15,6 @@ import (
 	"sort"
 	"strconv"
 	"strings"
-
-	"github.com/go-openapi/spec"
 )
 
 type absNode struct {
@@ -39,8 +37,8 @@ type expOpts struct {
 type expCase struct {
 	Case    int       `json:"case"`
 	Nodes   []absNode `json:"nodes"`
-	Layout  []string  `json:"layout"`  // layout class of documents 1..
-	Rot     int       `json:"rot"`     // rotation of position keywords / spellings / name classes
+	Layout  []string  `json:"layout"` // layout class of documents 1..
+	Rot     int       `json:"rot"`    // rotation of position keywords / spellings / name classes
 	Opts    expOpts   `json:"opts"`
 	Entry   string    `json:"entry"`   // ExpandSpec (default) ...
 	Reps    int       `json:"reps"`    // repetitions (map orders)
@@ -48,6 +46,7 @@ type expCase struct {
 	Preload []int     `json:"preload"` // documents pre-loaded in the cache (C18)
 	Names   string    `json:"names"`   // name class: plain | special
 	Spell   string    `json:"spell"`   // spelling class: simple | varied
+	Cache   string    `json:"cache"`   // cache mode of single-element entries: none | fresh | preload | reuse
 }
 
 type docObs struct {
@@ -87,35 +86,58 @@ type expObs struct {
 	Detail   string     `json:"detail"`
 	Collide  []bool     `json:"collide"` // per document: the root's URL path is a proper string prefix of its path
 	Events   [][]string `json:"events"`  // internal events of the first repetition (verif hooks)
+	Names    string     `json:"names"`
+	Spell    string     `json:"spell"`
+	Reps     int        `json:"reps"`
+	Elem     string     `json:"elem"`    // single-element entries: pointer of the expanded element
+	Cache    string     `json:"cache"`
+	Cached   []AURL     `json:"cached"`   // documents known to be in the supplied cache before the call
+	SameFull bool       `json:"samefull"` // SkipThenFull: bytes equal to the direct full expansion
+	DefSame  bool       `json:"defsame"`  // definitions section of the output equals the input's
 }
 
-const rootURL = "file:///w/r/root.json"
+// Root location.  Ordinary entries: file:///w/r/root.json.  Entries that take the root as an
+// in-memory document (ExpandSchema, Expand*WithRoot) resolve relative refs against the pseudo
+// document ".root" in the process working directory: the child chdirs into <scratch>/w/r.
+var cwdPrefix string // set when the child has chdir'ed: "<scratch>"
 
-func layoutURL(class string, d int) string {
+func usesCwdRoot(entry string) bool {
+	return strings.HasPrefix(entry, "ExpandSchema:") || strings.HasSuffix(entry, "WithRoot")
+}
+
+func rootLoc(entry string) (prefix, file string) {
+	if usesCwdRoot(entry) {
+		return cwdPrefix, ".root"
+	}
+	return "", "root.json"
+}
+
+func layoutURL(class string, d int, prefix, rootFile string) string {
 	n := strconv.Itoa(d)
+	p := "file://" + prefix
 	switch class {
 	case "sibling":
-		return "file:///w/r/b" + n + ".json"
+		return p + "/w/r/b" + n + ".json"
 	case "subdir":
-		return "file:///w/r/sub/b" + n + ".json"
+		return p + "/w/r/sub/b" + n + ".json"
 	case "subsub":
-		return "file:///w/r/sub/deep/b" + n + ".json"
+		return p + "/w/r/sub/deep/b" + n + ".json"
 	case "parent":
-		return "file:///w/b" + n + ".json"
+		return p + "/w/b" + n + ".json"
 	case "otherdir":
-		return "file:///w/o/b" + n + ".json"
+		return p + "/w/o/b" + n + ".json"
 	case "othertop":
-		return "file:///v/b" + n + ".json"
+		return p + "/v/b" + n + ".json"
 	case "remote":
 		return "http://h.example/x/b" + n + ".json"
 	case "prefixfile":
-		return "file:///w/r/root.jsonx" + n
+		return p + "/w/r/" + rootFile + "x" + n
 	case "prefixdir":
-		return "file:///w/r/root.json.d/b" + n + ".json"
+		return p + "/w/r/" + rootFile + ".d/b" + n + ".json"
 	case "prefixtop":
-		return "file:///w/r2/b" + n + ".json"
+		return p + "/w/r2/b" + n + ".json"
 	}
-	return "file:///w/r/b" + n + ".json"
+	return p + "/w/r/b" + n + ".json"
 }
 
 var specialNames = []string{"a/b", "t~x", "p%x", "s p", "{id}", "été", "q?x", "h#x", "quo\"te", "back\\sl", "0", "~1", "%41"}
@@ -252,13 +274,14 @@ func concretise(c *expCase) (*concrete, error) {
 		}
 	}
 	cc := &concrete{urls: make([]string, nd), docs: make([]map[string]interface{}, nd), paths: make([][]string, n+1), nodeOf: make([]interface{}, n+1)}
-	cc.urls[0] = rootURL
+	prefix, rootFile := rootLoc(c.Entry)
+	cc.urls[0] = "file://" + prefix + "/w/r/" + rootFile
 	for d := 1; d < nd; d++ {
 		class := "sibling"
 		if d-1 < len(c.Layout) {
 			class = c.Layout[d-1]
 		}
-		cc.urls[d] = layoutURL(class, d)
+		cc.urls[d] = layoutURL(class, d, prefix, rootFile)
 	}
 	cc.docs[0] = map[string]interface{}{
 		"swagger": "2.0",
@@ -550,14 +573,15 @@ func (l *recLoader) load(u string) (json.RawMessage, error) {
 }
 
 var expFlags struct {
-	layouts string
-	opts    string
-	rots    string
-	names   string
-	spell   string
+	layouts  string
+	opts     string
+	rots     string
+	names    string
+	spell    string
 	reps     int
 	entry    string
 	failsets string
+	caches   string
 }
 
 func init() {
@@ -571,8 +595,10 @@ func init() {
 			fs.IntVar(&expFlags.reps, "reps", 2, "repetitions per case")
 			fs.StringVar(&expFlags.entry, "entry", "ExpandSpec", "entry point")
 			fs.StringVar(&expFlags.failsets, "failsets", "none", "comma list of sets (a+b) of documents the loader refuses")
+			fs.StringVar(&expFlags.caches, "caches", "none", "comma list of cache modes: none,fresh,reuse,preload:0+1")
 		},
 		run:     expRun,
+		init:    expInit,
 		crashed: expCrashed,
 		expand: func(line []byte) ([][]byte, error) {
 			cases, err := expandCaseLine(line)
@@ -585,7 +611,7 @@ func init() {
 			}
 			return out, nil
 		},
-		slim:    expSlim,
+		slim: expSlim,
 	}
 }
 
@@ -597,7 +623,9 @@ func expRun(line []byte, emit func(interface{})) error {
 		return err
 	}
 	for _, c := range cases {
-		emit(runExpCase(c))
+		for _, o := range runExpCase(c) {
+			emit(o)
+		}
 	}
 	return nil
 }
@@ -638,9 +666,26 @@ func cross(id int, nodes []absNode) []*expCase {
 		for _, o := range strings.Split(expFlags.opts, ",") {
 			for _, r := range strings.Split(expFlags.rots, ",") {
 				rot, _ := strconv.Atoi(r)
-				for _, fsx := range strings.Split(expFlags.failsets, ",") {
+				for _, fsx0 := range crossTail() {
+					fsx, entry, cache := fsx0[0], fsx0[1], fsx0[2]
 					c := &expCase{Case: id, Nodes: nodes, Layout: strings.Split(lay, "+"), Rot: rot,
-						Entry: expFlags.entry, Reps: expFlags.reps, Names: expFlags.names, Spell: expFlags.spell}
+						Entry: entry, Reps: expFlags.reps, Names: expFlags.names, Spell: expFlags.spell}
+					if strings.HasPrefix(cache, "preload:") {
+						c.Cache = "preload"
+						skipPre := false
+						for _, ds := range strings.Split(strings.TrimPrefix(cache, "preload:"), "+") {
+							d, _ := strconv.Atoi(ds)
+							if d >= maxDoc(nodes)+1 {
+								skipPre = true
+							}
+							c.Preload = append(c.Preload, d)
+						}
+						if skipPre {
+							continue
+						}
+					} else {
+						c.Cache = cache
+					}
 					if len(o) == 3 {
 						c.Opts = expOpts{Skip: o[0] == '1', Cont: o[1] == '1', Abs: o[2] == '1'}
 					}
@@ -659,6 +704,19 @@ func cross(id int, nodes []absNode) []*expCase {
 					}
 					out = append(out, c)
 				}
+			}
+		}
+	}
+	return out
+}
+
+// crossTail: failset x entry x cache mode
+func crossTail() [][3]string {
+	var out [][3]string
+	for _, f := range strings.Split(expFlags.failsets, ",") {
+		for _, e := range strings.Split(expFlags.entry, ",") {
+			for _, c := range strings.Split(expFlags.caches, ",") {
+				out = append(out, [3]string{f, e, c})
 			}
 		}
 	}
@@ -684,7 +742,7 @@ func expCrashed(line []byte, outcome, detail string) interface{} {
 	c := cases[0]
 	return &expObs{Case: c.Case, Layout: c.Layout, Rot: c.Rot, Opts: c.Opts, Entry: c.Entry, Outcome: outcome,
 		Detail: detail, Abstract: c.Nodes, Docs: []docObs{}, Nodes: []PNode{}, Entries: []entryObs{}, Loads: []AURL{},
-		LoadsS: []string{}, LoadOK: []bool{}, Concrete: []string{}, DocURLs: []string{}, FailURL: []int{}, Preload: []int{}, Collide: []bool{}, Events: [][]string{}}
+		LoadsS: []string{}, LoadOK: []bool{}, Concrete: []string{}, DocURLs: []string{}, FailURL: []int{}, Preload: []int{}, Collide: []bool{}, Events: [][]string{}, Cached: []AURL{}}
 }
 
 // collides: same site and the root's path is a proper string prefix of the other path.
@@ -705,161 +763,6 @@ func mustJSON(v interface{}) []byte {
 		panic(err)
 	}
 	return bytes.TrimSpace(buf.Bytes())
-}
-
-func runExpCase(c *expCase) *expObs {
-	obs := &expObs{Case: c.Case, Layout: c.Layout, Rot: c.Rot, Opts: c.Opts, Entry: c.Entry, Abstract: c.Nodes,
-		Docs: []docObs{}, Nodes: []PNode{}, Entries: []entryObs{}, Loads: []AURL{}, LoadsS: []string{}, LoadOK: []bool{},
-		Concrete: []string{}, DocURLs: []string{}, FailURL: c.FailURL, Preload: c.Preload, Det: true, RootSame: true, OptsSame: true,
-		Collide: []bool{}, Events: [][]string{}}
-	if obs.FailURL == nil {
-		obs.FailURL = []int{}
-	}
-	if obs.Preload == nil {
-		obs.Preload = []int{}
-	}
-	if obs.Layout == nil {
-		obs.Layout = []string{}
-	}
-	cc, err := concretise(c)
-	if err != nil {
-		obs.Outcome = "harness-error"
-		obs.Detail = err.Error()
-		return obs
-	}
-	docBytes := map[string][]byte{}
-	for d := range cc.docs {
-		b := mustJSON(cc.docs[d])
-		docBytes[cc.urls[d]] = b
-		obs.Concrete = append(obs.Concrete, string(b))
-		obs.DocURLs = append(obs.DocURLs, cc.urls[d])
-		obs.Collide = append(obs.Collide, d > 0 && collides(cc.urls[0], cc.urls[d]))
-	}
-	refuse := map[string]bool{}
-	for _, d := range c.FailURL {
-		if d < len(cc.urls) {
-			refuse[cc.urls[d]] = true
-		}
-	}
-	reps := c.Reps
-	if reps < 1 {
-		reps = 1
-	}
-	var firstOut []byte
-	outs := map[string]bool{}
-	for rep := 0; rep < reps; rep++ {
-		ld := &recLoader{docs: docBytes, refuse: refuse}
-		var events [][]string
-		if rep == 0 {
-			spec.VerifTrace = func(ev string, args ...string) {
-				if len(events) < 20000 {
-					e := make([]string, 0, len(args)+1)
-					e = append(e, ev)
-					for _, a := range args {
-						e = append(e, ascii(a))
-					}
-					events = append(events, e)
-				}
-			}
-			ld.onCall = func(u string) { events = append(events, []string{"fetch", ascii(u)}) }
-		}
-		out, outcome, errs := callExpand(c, cc, docBytes, ld, rep)
-		spec.VerifTrace = nil
-		if rep == 0 {
-			obs.Events = events
-			if obs.Events == nil {
-				obs.Events = [][]string{}
-			}
-			obs.Outcome, obs.Err = outcome, ascii(errs)
-			firstOut = out
-			for i, u := range ld.log {
-				a, _ := parseAURL(u)
-				obs.Loads = append(obs.Loads, a)
-				obs.LoadsS = append(obs.LoadsS, ascii(u))
-				obs.LoadOK = append(obs.LoadOK, ld.ok[i])
-			}
-		} else if outcome != obs.Outcome {
-			obs.Det = false
-		}
-		outs[string(out)] = true
-	}
-	obs.Orders = len(outs)
-	if len(outs) > 1 {
-		obs.Det = false
-	}
-	// projection
-	p := &projector{}
-	inRoots := make([]int, len(cc.docs))
-	for d := range cc.docs {
-		var v interface{}
-		_ = json.Unmarshal(docBytes[cc.urls[d]], &v)
-		a, _ := parseAURL(cc.urls[d])
-		obs.Docs = append(obs.Docs, docObs{URL: a, Dead: refuse[cc.urls[d]]})
-		inRoots[d] = p.document(d+1, v, false)
-	}
-	inputCount := len(p.nodes)
-	byPath := map[string]int{}
-	if obs.Outcome == "ok" && firstOut != nil {
-		var v interface{}
-		if err := json.Unmarshal(firstOut, &v); err != nil {
-			obs.Outcome = "harness-error"
-			obs.Detail = "output does not parse: " + err.Error()
-		} else {
-			a, _ := parseAURL(cc.urls[0])
-			obs.Docs = append(obs.Docs, docObs{URL: a, Out: true})
-			od := len(obs.Docs)
-			p.document(od, v, false)
-			for i := inputCount; i < len(p.nodes); i++ {
-				if len(p.nodes[i].Path) == 2 {
-					byPath[strings.Join(p.nodes[i].Path, "\x00")] = i + 1
-				}
-			}
-			obs.Concrete = append(obs.Concrete, string(firstOut))
-		}
-	}
-	// entries: top-level elements of the input root, matched by path with the output (0 = none)
-	for i := 0; i < inputCount; i++ {
-		nd := p.nodes[i]
-		if nd.Doc == 1 && len(nd.Path) == 2 {
-			obs.Entries = append(obs.Entries, entryObs{A: i + 1, B: byPath[strings.Join(nd.Path, "\x00")]})
-		}
-	}
-	obs.Nodes = p.nodes
-	if obs.Nodes == nil {
-		obs.Nodes = []PNode{}
-	}
-	return obs
-}
-
-// callExpand runs the real entry point once.  rep permutes the member order of the
-// source JSON so that Go's map iteration starts elsewhere.
-func callExpand(c *expCase, cc *concrete, docBytes map[string][]byte, ld *recLoader, rep int) (out []byte, outcome, errs string) {
-	defer func() {
-		if r := recover(); r != nil {
-			outcome = "panic"
-			errs = fmt.Sprint(r)
-		}
-	}()
-	switch c.Entry {
-	case "", "ExpandSpec":
-		var sw spec.Swagger
-		src := permuteMembers(docBytes[cc.urls[0]], rep)
-		if err := json.Unmarshal(src, &sw); err != nil {
-			return nil, "harness-error", "root does not decode: " + err.Error()
-		}
-		opts := &spec.ExpandOptions{RelativeBase: cc.urls[0], SkipSchemas: c.Opts.Skip, ContinueOnError: c.Opts.Cont,
-			AbsoluteCircularRef: c.Opts.Abs, PathLoader: ld.load}
-		err := spec.ExpandSpec(&sw, opts)
-		if err != nil {
-			return nil, "error", err.Error()
-		}
-		b, err := json.Marshal(&sw)
-		if err != nil {
-			return nil, "error", "marshal: " + err.Error()
-		}
-		return b, "ok", ""
-	}
-	return nil, "harness-error", "unknown entry " + c.Entry
 }
 
 // permuteMembers re-serialises a JSON document with the members of every object rotated by
@@ -940,5 +843,6 @@ func expSlim(v interface{}) interface{} {
 		"docs": o.Docs, "nodes": nodes, "entries": o.Entries, "loads": o.Loads, "loadok": o.LoadOK,
 		"det": o.Det, "rootsame": o.RootSame, "optssame": o.OptsSame, "abstract": o.Abstract,
 		"failurl": o.FailURL, "preload": o.Preload, "collide": o.Collide, "events": o.Events,
+		"elem": o.Elem, "cache": o.Cache, "cached": o.Cached, "samefull": o.SameFull, "defsame": o.DefSame,
 	}
 }
